@@ -243,6 +243,9 @@ pub fn check(case: &Case) -> Option<(String, String)> {
 }
 
 pub fn replay(case: &Value) -> Vec<String> {
+    if let Some(r) = super::big::replay("C15", case) {
+        return r;
+    }
     match serde_json::from_value::<Case>(case.clone()) {
         Ok(c) => match crate::common::guarded(|| check(&c)) {
             Ok(r) => r.into_iter().map(|(s, _)| s).collect(),
@@ -409,7 +412,10 @@ pub fn run(tier: Tier) -> i32 {
             }
         }
     });
+    let (big_cases, _) = super::big::run(&ctx, "C15", tier == Tier::Thorough);
     let mut cov = Coverage::new();
+    cov.set("size_threshold_pass", json!({"cases": big_cases, "run_lengths": super::big::runs(tier == Tier::Thorough),
+        "what": "generated documents with one long run (4 KiB .. 512 KiB / 2 MiB) inside one of 11 constructs x 4 filter lists: the one-chunk output must be the exact expected edit"}));
     cov.set("distinct_nontrivial", json!(edited.len()))
         .set("rule", json!("evaluations = (generated document, filter list) cases; distinct_nontrivial = distinct expected outputs that differ from their input document (an edit takes place)"))
         .set("cases", json!(cases.len()))
